@@ -10,6 +10,7 @@ fn any_pool() -> Pool {
     match k { 0 => Pool::Cache, 1 => Pool::Query, 2 => Pool::Recovery, 3 => Pool::Schema, _ => Pool::Shared }
 }
 fn idx(p: Pool) -> usize { match p { Pool::Cache => 0, Pool::Query => 1, Pool::Recovery => 2, Pool::Schema => 3, Pool::Shared => 4 } }
+fn eq5(a: &[usize; 5], b: &[usize; 5]) -> bool { a[0] == b[0] && a[1] == b[1] && a[2] == b[2] && a[3] == b[3] && a[4] == b[4] }
 fn used(b: &MemoryBudget) -> [usize; 5] { let s = b.stats(); [s.cache_used, s.query_used, s.recovery_used, s.schema_used, s.shared_used] }
 
 // @vt prop=C39 tier=quick bound="every sequential history of 3 operations (allocate or release, any of the 5 pools, any byte count up to 8 MiB) on a 4 MiB budget" outside="longer histories; concurrent schedules (c39_schedule_*)" timeout=900
@@ -24,14 +25,14 @@ vt_proof! { unwind = 4; fn c39_sequential_history_3() {
         let before = used(&b);
         if is_alloc {
             let r = core::mem::ManuallyDrop::new(b.allocate(p, n));
-            if r.is_ok() { ghost[idx(p)] += n; } else { assert!(used(&b) == before, "role=failed_allocate_changes_nothing"); }
+            if r.is_ok() { ghost[idx(p)] += n; } else { assert!(eq5(&used(&b), &before), "role=failed_allocate_changes_nothing"); }
             kani::cover!(r.is_err() && step == 2, "w:third_allocation_refused");
         } else {
             kani::assume(n <= ghost[idx(p)]); // releases return memory that was allocated
             b.release(p, n);
             ghost[idx(p)] -= n;
         }
-        assert!(used(&b) == ghost, "role=pool_usage_equals_allocations_minus_releases");
+        assert!(eq5(&used(&b), &ghost), "role=pool_usage_equals_allocations_minus_releases");
         assert!(b.total_used() <= limit, "role=total_usage_never_exceeds_limit");
         step += 1;
     }
